@@ -10,18 +10,30 @@ kernel (half-width floor(truncate*sigma + 1/2) computed in Coq over Q, weights
 from an independently computed exp table), so a wrong kernel in the
 implementation shows up both in the kernel comparison and pointwise.
 
+Tie (route T): tools/py2coq_preproc.py re-translates the CURRENT source of
+trackpy/preprocessing.py (lowpass, boxcar, bandpass) and trackpy/masks.py
+(gaussian_kernel) into coq/Gen/preproc.v on every run, before the build;
+Proofs/BandpassGen.v proves that the generated functions equal the hand model
+(Model/Bandpass.v) for all inputs in 2-D and 3-D, and Properties/C10.v restates the
+headline theorems for the generated py_bandpass.  A source that leaves the
+translatable subset, or whose translation no longer equals the model, is
+reported through chk.proof_broken; the run then still compares the implementation
+with the hand model (the independent reference filter) to find a concrete input.
+
 Monitor (on the implementation's outputs alone, float-exact where possible):
 shape/dtype, `out == 0 or out >= threshold` for every pixel, input bytes
 untouched / no shared memory, exact homogeneity under power-of-two scaling,
 transposition, argument guard.
 """
-import math, json
+import math, json, os, sys, hashlib
 import numpy as np
 from fractions import Fraction
 import common
 from common import cQ, cZ, cN, clist
 
 IMPORTS = "From TP Require Import Model.Bandpass Model.BandpassCheck."
+TRANSLATOR = os.path.join(common.VERIF, 'tools', 'py2coq_preproc.py')
+GEN = os.path.join(common.COQ, 'Gen', 'preproc.v')
 CODES = {0: 'ok',
          1: 'outcome differs: implementation and model disagree on returning an image / raising the scale error / raising the odd-size error',
          2: 'output shape differs from the input shape',
@@ -34,6 +46,74 @@ MSG_ODD = 'must be an odd integer'
 TOL_BITS = 40          # tol = max|image| * 2^-40  (<= 4096 float operations per pixel, each <= max|image| * 2^-52)
 KTOL = Fraction(1, 10 ** 12)
 JOBS = 14
+
+
+# --------------------------------------------------------------------------
+# translator / build (route T)
+# --------------------------------------------------------------------------
+def regenerate(chk):
+    """re-run the translator on the current source; returns (ok, text-or-log)"""
+    rc, out = common.sh([sys.executable, TRANSLATOR, '--repo', common.REPO, '--stdout'], timeout=60)
+    if rc != 0:
+        return False, out
+    with common.Lock(os.path.join(common.COQ, '.build.lock')):
+        old = open(GEN).read() if os.path.exists(GEN) else None
+        if old != out:
+            os.makedirs(os.path.dirname(GEN), exist_ok=True)
+            tmp = GEN + '.tmp%d' % os.getpid()
+            with open(tmp, 'w') as f:
+                f.write(out)
+            os.replace(tmp, GEN)
+            chk.tally('Gen/preproc.v rewritten (source differs from last run)')
+        else:
+            chk.tally('Gen/preproc.v unchanged')
+    return True, out
+
+
+def ensure_models(chk):
+    """Model/BandpassCheck.vo (the executable hand model of the correspondence run) does not depend on the
+    generated file: it is needed even when the translation or a proof about the generated code is broken"""
+    def fresh(v):
+        vo = os.path.join(common.COQ, v + 'o')
+        return os.path.exists(vo) and os.path.getmtime(vo) >= os.path.getmtime(os.path.join(common.COQ, v))
+    files = ('Model/Bandpass.v', 'Model/BandpassCheck.v')
+    if all(fresh(v) for v in files):
+        return True
+    with common.Lock(os.path.join(common.COQ, '.build.lock')):
+        rc, out = common.sh('timeout 600 make %s 2>&1 | tail -40' % ' '.join(v + 'o' for v in files), timeout=630, cwd=common.COQ)
+        if not all(fresh(v) for v in files):
+            chk.proof_broken('Model/Bandpass.v / Model/BandpassCheck.v (executable model does not build)', out)
+            return False
+    return True
+
+
+def build(chk):
+    """translator -> cone of Properties/C10.v.  False when the translation or a proof failed."""
+    ok, text = regenerate(chk)
+    if not ok:
+        chk.proof_broken('translation tools/py2coq_preproc.py (bandpass / lowpass / boxcar / gaussian_kernel left the translatable subset)', text)
+        chk.build = dict(obligations=0, discharged=0, assumptions=[], files=[], theorems=[])
+        ensure_models(chk)
+        return False
+    for attempt in range(3):
+        b = chk.coq()
+        if open(GEN).read() == text:
+            break
+        # another run (different TRACKPY_REPO) rewrote the generated file in between: redo
+        chk.violations = [v for v in chk.violations if not v[0].startswith('proof:')]
+        regenerate(chk)
+    chk.notes.append('Gen/preproc.v sha1 %s generated from %s' % (hashlib.sha1(text.encode()).hexdigest()[:12], common.REPO))
+    if not b['ok']:
+        # say which re-proof about the generated functions fails (the generic report only names the first stale file)
+        with common.Lock(os.path.join(common.COQ, '.build.lock')):
+            rc, out = common.sh('timeout 600 make Proofs/BandpassGen.vo 2>&1 | tail -40', timeout=630, cwd=common.COQ)
+            vo, gv = os.path.join(common.COQ, 'Proofs', 'BandpassGen.vo'), GEN
+            stale = not (os.path.exists(vo) and os.path.getmtime(vo) >= os.path.getmtime(gv))
+        if stale and open(GEN).read() == text:
+            chk.violations = [v for v in chk.violations if not v[0].startswith('proof:')]
+            chk.proof_broken('Proofs/BandpassGen.v (the code generated from the current trackpy/preprocessing.py / masks.py no longer equals the model the C10 theorems are about)', out)
+        ensure_models(chk)
+    return bool(b['ok'])
 
 
 # --------------------------------------------------------------------------
@@ -561,7 +641,7 @@ def strip(c):
 
 def run(chk):
     common.quiet_trackpy()
-    chk.coq()
+    build(chk)
     rng = chk.rng
     n = 170 if chk.tier == 'quick' else 2200
     cases = corpus()
@@ -588,7 +668,10 @@ def run(chk):
                             "truncate*lshort exactly k+1/2; odd llong scalar or per axis, also 1, even, and <= lshort; threshold None / 0 / negative / on a pixel value; "
                             "bandpass, lowpass, boxcar each compared pixelwise with the exact Q model inside Coq; gaussian_kernel compared with the model kernel; "
                             "hand-written corpus first. non-trivial = implementation returned an image with >= 6 pixels that is not constant; distinct by content")
-    chk.assumptions += ["scipy.ndimage.correlate1d(mode='constant', cval=0) and uniform_filter1d(mode='nearest') modelled by their mathematical meaning (exercised by every case, not verified)",
+    chk.assumptions += ["route T: tools/py2coq_preproc.py (fail-closed) and the vocabulary Model/PyPreproc.v are trusted: validate_tuple is a named primitive (its AST is compared with a pinned copy), "
+                        "@memo on gaussian_kernel is read as transparent, np.array(image, dtype=float) / image.copy() as value-preserving new arrays (aliasing is observed by the monitor, not modelled), "
+                        "image.dtype only selects the default threshold (the integer-dtype rounding of scipy's boxcar passes is outside the model and the property), `1/255.` is read as the rational 1/255",
+                        "scipy.ndimage.correlate1d(mode='constant', cval=0) and uniform_filter1d(mode='nearest') modelled by their mathematical meaning (exercised by every case, not verified)",
                         "exp(-x^2/(2 sigma^2)) enters the model as a table computed with math.exp (modelled, not verified); gaussian_kernel's half-width, arange, normalisation are modelled and compared",
                         "float rounding: implementation pixels compared with the exact rational result within max|image| * 2^-40 (<= 4096 operations of relative error 2^-52 per pixel); "
                         "pixels whose exact value is within that bound of the threshold are exempt from the clip comparison and counted; exact-arithmetic cases (identity Gaussian, "
@@ -599,7 +682,7 @@ def run(chk):
 
 def replay(chk, path):
     common.quiet_trackpy()
-    chk.coq()
+    build(chk)
     r = json.load(open(path))['replay']
     if r.get('kind') == 'case':
         c = unjson(r['case'])
